@@ -6,6 +6,9 @@ ROOT = os.path.dirname(os.path.dirname(os.path.abspath(__file__)))
 PAGER = "TLA+ mechanism model Pager.tla checked exhaustively by TLC (all interleavings of readers, savepoint handles and every critical section of the writer), "
 
 CLAIMS = {
+ "C14": dict(cat="model_checking", tech="TLA+ spec Buddy.tla checked by TLC; exhaustive (state, operation) tour of the real allocator and random walks validated by TLC trace validation (BuddyTrace.tla)",
+   text="every (length, free-set) state of a capacity-8 region x every operation is executed on the real buddy allocator and validated by TLC, including the allocator's own free-block structure (must be canonical: maximal merged blocks) and refusal only when nothing fits; random walks on larger capacities; region tracker invariant on multi-region database histories.",
+   note="allocator driven through a cfg(redb_verif) wrapper; shrinking only with a free tail (asserted by the implementation)", ref="DESIGN.md 4/C14"),
  "C02": dict(cat="model_checking", tech=PAGER + "forced-schedule replay through a pause point and TLC trace validation of snapshot re-reads and page accounting",
    text="design: invariant Pinned holds in every reachable state of the small model (and is violated by the two seeded-bad variants of the model). code: the begin_read window is forced while commits free and reuse pages; live readers, owned iterators and guards are re-read after later commits/aborts/restores/compaction; projected page sets at every transaction boundary satisfy the same invariants. Found and fixed a genuine defect (known_findings.txt).",
    note="trusted: TLC, harness, verif hooks (read-only projections); interleavings inside a single B-tree read are not controlled", ref="DESIGN.md 4/C02"),
